@@ -17,7 +17,7 @@ import random
 import re
 import shutil
 
-from lib import common, tlc, goharness
+from lib import common, tlc, goharness, findings
 from lib.common import Result, Violation, InfraError
 
 MAXTOK = 65536            # bufio.MaxScanTokenSize
@@ -272,7 +272,7 @@ def check_clauses(content, vf, installed_path):
         if st == b"" or st.startswith(b"#"):
             continue
         if st.startswith(b"["):
-            if hdr_class(ln) == "other":
+            if hdr_class(st) == "other":
                 bad.append(("OnlyAllowlisted", i, ln))
             if st == b"[Desktop Entry]":
                 if i + 1 >= len(lines) or lines[i + 1] != TAG_KEY + b"=" + inst:
@@ -293,10 +293,12 @@ def check_clauses(content, vf, installed_path):
             bad.append(("OnlyAllowlisted", i, ln))
         if kc == "Exec":
             toks = value.split()                      # arguments of an Exec value are separated by blanks
-            k = 1                                     # what `env` runs: first word that is not VAR=value
-            while k < len(toks) and b"=" in toks[k] and not toks[k].startswith(b"-"):
-                k += 1
-            good = toks[:1] == [b"env"] and k < len(toks) and toks[k] in wrappers
+            k = 0
+            if toks[:1] == [b"env"]:                  # what `env` runs: first word that is not VAR=value
+                k = 1
+                while k < len(toks) and b"=" in toks[k] and not toks[k].startswith(b"-"):
+                    k += 1
+            good = k < len(toks) and toks[k] in wrappers
             if not good or loc != "none":
                 bad.append(("ExecIsOwnWrapper", i, ln))
         if kc == "Icon" and b"/" in value:
@@ -423,7 +425,7 @@ def build_cases(ctx, rng):
                     add(ls, [rng.randrange(len(SPELLINGS[c])) for c in ls], inst, fn, rng.choice(FNAMES[fn]),
                         rng.choice([b"\n", b"\n", b"\r\n"]), rng.random() < 0.8)
     # 4. random longer files (beyond the exhaustive bound), realistic skeleton first
-    for _ in range(ctx.pick(1500, 40000)):
+    for _ in range(ctx.pick(1500, 20000)):
         n = rng.randint(3, 9)
         ls = [rng.choice(classes) for _ in range(n)]
         if rng.random() < 0.6:
@@ -437,8 +439,25 @@ def build_cases(ctx, rng):
 # ----------------------------------------------------------------------------------------------------------
 # TLC
 
-def tlc_table(ctx, abstract_cases, name):
+def tlc_table(ctx, abstract_cases, name, shards=1):
     """Evaluate Sanitize + the clauses in TLC on the given abstract cases -> (list of results, Attr table)."""
+    if shards > 1 and len(abstract_cases) > 8000:
+        import concurrent.futures
+        import threading
+        lock, orig = threading.Lock(), ctx.subdir
+
+        def locked(n):
+            with lock:
+                return orig(n)
+        ctx.subdir = locked
+        try:
+            step = (len(abstract_cases) + shards - 1) // shards
+            parts = [abstract_cases[i:i + step] for i in range(0, len(abstract_cases), step)]
+            with concurrent.futures.ThreadPoolExecutor(len(parts)) as ex:
+                outs = list(ex.map(lambda a: tlc_table(ctx, a[1], "%s_%d" % (name, a[0])), enumerate(parts)))
+        finally:
+            ctx.subdir = orig
+        return [r for o in outs for r in o[0]], outs[0][1]
     d = ctx.subdir("table_" + name)
     inp, outp, attrp = os.path.join(d, "cases.ndjson"), os.path.join(d, "out.json"), os.path.join(d, "attr.json")
     common.write_ndjson(inp, [{"lines": list(l), "inst": i, "fname": f} for (l, i, f) in abstract_cases])
@@ -539,15 +558,28 @@ def judge(cases, rows, results, facts):
             ip = (facts["desktop_dir"] + "/" + fn).encode()
             clause_hits += [(cl, i, ln, fn) for (cl, i, ln) in check_clauses(content, vf, ip)]
         exp_lines = exp.split(b"\n")[:-1] if exp else []
+        exp_lines = exp.split(b"\n")[:-1] if exp else []
+        root = facts["root"].encode()
+        hint_prefix = b"Exec=env BAMF_DESKTOP_FILE_HINT=" + installed_path + b" "
+        # what every input line would look like if it were emitted verbatim / as the spec rewrites it
+        cand = {}
+        for j, (c, sp) in enumerate(zip(cs.lines, cs.spellings())):
+            raw = resolve(sp_line(sp), facts, cs.inst).replace(b"${SNAP}", vf["mount_dir"].encode())
+            cand.setdefault(raw, (c, sp))
+        for r_i, own in enumerate(owners):
+            if own != "TAG" and r_i < len(exp_lines):
+                k = [j for j, c in enumerate(cs.lines) if c == own]
+                if k:
+                    cand.setdefault(exp_lines[r_i], (own, cs.spellings()[k[0]]))
         for cl, i, ln, fn in clause_hits:
-            if cl == "ExecIsOwnWrapper" and cs.fname == "space" and real == exp:
+            if cl == "ExecIsOwnWrapper" and cs.fname == "space" and ln.startswith(hint_prefix):
                 culprit, what = "desktop-file-name-with-blank", "file name %r" % (cs.stem + ".desktop")
-            elif real == exp and i < len(owners):
-                culprit = owners[i]
-                k = [j for j, c in enumerate(cs.lines) if c == culprit]
-                what = "input line %r" % (sp_line(cs.spellings()[k[0]])[:100] if k else b"")
+            elif ln in cand:
+                culprit = cand[ln][0]
+                what = "input line %r" % sp_line(cand[ln][1])[:100]
             else:
-                culprit, what = "line:" + ln[:60].decode("latin-1"), "output differs from the spec as well"
+                culprit = "line:" + ln[:80].replace(root, b"<ROOT>").decode("latin-1")
+                what = "output differs from the spec as well"
             key = "%s:%s" % (cl, culprit)
             ent = viol.setdefault(key, {"n": 0, "first": None})
             ent["n"] += 1
@@ -656,7 +688,7 @@ def run(ctx):
         cases.append(Case("c%d" % len(cases), ls, spell, inst, fn, FNAMES[fn][0]))
     akeys = sorted({c.akey() for c in cases})
     ctx.log("%d concrete cases, %d abstract cases" % (len(cases), len(akeys)))
-    table, _ = tlc_table(ctx, akeys, "cases")
+    table, _ = tlc_table(ctx, akeys, "cases", shards=ctx.pick(1, 6))
     results = dict(zip(akeys, table))
     ctx.log("TLC table done")
     tb = goharness.ext_test_build(ctx, "desktop")
@@ -683,10 +715,12 @@ def run(ctx):
     if mc_failed and not violations:
         raise InfraError("spec-level counterexample (%s) not reproduced on the real code: %s" % (
             mc_failed[0].name, mc_failed[0].trace[-1]["vars"]))
-    if deviations and not violations:
+    pure = [d for d in deviations if not d.get("also_violates")]
+    _, new_violations = findings.classify(ctx.prop, violations)
+    if pure and not new_violations:
         raise InfraError("real output deviates from the spec's expected output without violating the statement "
                          "(%d case(s)); triage spec vs code. First: %s" % (
-                             len(deviations), json.dumps(deviations[0], default=str)[:1500]))
+                             len(pure), json.dumps(pure[0], default=str)[:1500]))
     never_kept = sorted(set(classes) - stats["kept_classes"])
     never_dropped = sorted(set(classes) - stats["dropped_classes"])
     if len(stats["kept_classes"]) < 10 or len(stats["dropped_classes"]) < 10 or stats["tagged"] == 0 \
@@ -714,7 +748,7 @@ def run(ctx):
         "deviations_from_spec": len(deviations),
         "samples": samples,
         "invariants": ["InvOnlyAllowlisted", "InvExecIsOwnWrapper", "InvIconInsideSnap", "InvTagged",
-                       "InvNoInvention"],
+                       "InvNoInvention", "InvLoopIsSanitize"],
     }
     cov["action_coverage"] = tlc.coverage_summary(model)
     if skipped_len4:
